@@ -292,8 +292,7 @@ def eval_list(r, trains, edges, idx, max_tau, mrts, be, rank=()):
 
 
 def check_state(r, k, masks, task):
-    trains = [lattice.times(m) for m in masks]
-    edges = lattice.edges(k)
+    trains, edges = pairs.trains_edges(k, masks)
     ns = pairs.nspikes(masks)
     be = task["backend"]
     if len(masks) == 2:
